@@ -55,10 +55,16 @@ func init() {
 			p := baseProfile(rng)
 			p.Blocks = 50 + rng.Intn(80)
 			p.StartEra = rng.Intn(10)
+			if rng.Intn(3) == 0 {
+				p.StartEra = eraConvLimit - 1 + rng.Intn(3) // the PEG bank creates and refunds units
+			}
 			p.TxMean = 2 + 2*rng.Float64()
 			return p
 		},
-		extra: func(rng *rand.Rand, g *world.Gen) func(uint32, *world.BlockSpec) { return burnAddressTraffic(rng, g) },
+		extra: func(rng *rand.Rand, g *world.Gen) func(uint32, *world.BlockSpec) {
+			// every kind of traffic that creates, destroys or moves units
+			return chain2(chain2(burnAddressTraffic(rng, g), pegRequests(rng, g)), exactBatches(rng, g))
+		},
 		nontrivial: func(w *world.World, l *model.Ledger) []string {
 			return causeKeys(l, model.CTransfer, model.CConv, model.CPegBank, model.COneTime, model.CBurn)
 		},
